@@ -64,6 +64,7 @@ def run_case(c):
         if before is not None:
             caps["steps"][k] = {"dl": before[0].tolist(), "d": before[1].tolist(), "du": before[2].tolist(), "b": before[3].tolist(), "x": b.tolist()}
         caps["last"] = b.copy()
+        caps["far_sum"] = caps.get("far_sum", 0.0) + float(b[-2] - b[-1])     # the heat that crosses into the fixed far-field cell
         caps["all_T0"] = caps.get("all_T0", []) + [float(b[0])]
         caps["n"] = k + 1
         return r
@@ -97,7 +98,7 @@ def run_case(c):
     out = {"ok": True, "n_cells": n, "nsteps": nsteps, "Rb": Rb, "Rf_half": Rf, "k_soil": c["k_soil"],
            "r_in": cells[P.R_IN].tolist(), "r_out": cells[P.R_OUT].tolist(), "r_center": cells[P.R_CENTER].tolist(),
            "k": cells[P.K].tolist(), "cap": Cap.tolist(), "cond": cond, "steps": caps["steps"],
-           "stored": stored, "injected": 120.0 * nsteps,
+           "stored": stored, "injected": 120.0 * nsteps, "leaked": 120.0 * cond[-1] * caps.get("far_sum", 0.0),
            "T_last": T.tolist(), "T0_series": caps["all_T0"],
            "lntts": rn.lntts.tolist(), "g": rn.g.tolist(), "g_bhw": rn.g_bhw.tolist(),
            "fluid_mass": float(np.sum(Cap[:3] * 120.0)), "fluid_mass_expected": 2 * math.pi * rp_in ** 2 * fluid.rhoCp,
